@@ -1289,9 +1289,9 @@ pub fn main(mut chk: Check) -> ! {
         let _ = chk.replay_one::<Case, _>("laws", &p, oracle)
             || chk.replay_one::<(Ty, u8, u32), _>("canon-contract", &p, canon_contract);
     }
-    let n = chk.tier().pick(30_000, 600_000);
+    let n = chk.tier().pick(150_000, 1_000_000);
     chk.run("laws", n, case_strategy(), oracle);
-    let n2 = chk.tier().pick(5_000, 100_000);
+    let n2 = chk.tier().pick(25_000, 200_000);
     chk.run("canon-contract", n2, (ty_strategy(true), any::<u8>(), any::<u32>()), canon_contract);
     chk.finish()
 }
